@@ -75,3 +75,33 @@ PROBE_CMD(sched_states) {
     for (std::size_t i = 0; i < b.sched->size(); ++i) out.d(b.sched->seconds(i));
     out.end_arr();
 }
+
+// {cmd:sched_apply, text, apps:[{action, step, wells:[...]}...]}
+//  -> {before:{nsteps,dumps}, after:{nsteps,dumps}, updates:[{affected_wells:[...]}]}
+PROBE_CMD(sched_apply) {
+    auto b = build(req, true);
+    out.key("before").obj();
+    dump_steps(*b.sched, req, out);
+    out.end_obj();
+    out.key("updates").arr();
+    jforeach(jget(req, "apps"), [&](const cJSON* a) {
+        const std::size_t step = (std::size_t)jint(a, "step");
+        const std::string name = jstr(a, "action");
+        const auto wells = jstrs(jget(a, "wells"));
+        // copy: applyAction() resizes the snapshot vector the action lives in
+        const Opm::Action::ActionX action = (*b.sched)[step].actions()[name];
+        auto result = Opm::Action::Result{true};
+        result.wells(wells);
+        const std::unordered_map<std::string, double> wellpi;
+        auto upd = b.sched->applyAction(step, action, result.matches(), wellpi);
+        out.obj().key("affected_wells").arr();
+        std::vector<std::string> aw(upd.affected_wells.begin(), upd.affected_wells.end());
+        std::sort(aw.begin(), aw.end());
+        for (const auto& w : aw) out.str(w);
+        out.end_arr().end_obj();
+    });
+    out.end_arr();
+    out.key("after").obj();
+    dump_steps(*b.sched, req, out);
+    out.end_obj();
+}
